@@ -30,12 +30,27 @@ pub mod mock {
     pub struct Clock { pub script: Vec<u128>, pub pos: usize, pub dflt: u128, pub log: Vec<(u64, usize)> }
     pub static CLOCK: Mutex<Clock> = Mutex::new(Clock { script: Vec::new(), pos: 0, dflt: 0, log: Vec::new() });
     thread_local! { pub static TAG: Cell<u64> = Cell::new(0); }
+    // rendezvous mode: the first thread that reads the clock waits (bounded) for a second reader before either of them proceeds;
+    // code that reads the clock inside one critical section never lets the second reader arrive
+    pub static RDV_ON: std::sync::atomic::AtomicBool = std::sync::atomic::AtomicBool::new(false);
+    pub static RDV_N: std::sync::atomic::AtomicUsize = std::sync::atomic::AtomicUsize::new(0);
+    pub fn rdv(on: bool) { RDV_N.store(0, std::sync::atomic::Ordering::SeqCst); RDV_ON.store(on, std::sync::atomic::Ordering::SeqCst); }
+    fn meet() {
+        use std::sync::atomic::Ordering::SeqCst;
+        if !RDV_ON.load(SeqCst) { return; }
+        let n = RDV_N.fetch_add(1, SeqCst) + 1;
+        if n >= 2 { return; }
+        let t0 = std::time::Instant::now();
+        while RDV_N.load(SeqCst) < 2 && t0.elapsed() < std::time::Duration::from_millis(250) { std::thread::yield_now(); }
+        RDV_ON.store(false, SeqCst);
+    }
     pub fn set(script: Vec<u128>, dflt: u128) { let mut c = CLOCK.lock().unwrap(); c.script = script; c.pos = 0; c.dflt = dflt; c.log.clear(); }
     pub fn pos() -> usize { CLOCK.lock().unwrap().pos }
     pub fn log() -> Vec<(u64, usize)> { CLOCK.lock().unwrap().log.clone() }
     impl SystemTime {
         pub const UNIX_EPOCH: SystemTime = SystemTime(0);
         pub fn now() -> SystemTime {
+            meet();
             let mut c = CLOCK.lock().unwrap();
             let i = c.pos;
             let v = if i < c.script.len() { c.script[i] } else { c.dflt + (i - c.script.len()) as u128 };
@@ -55,6 +70,30 @@ impl Nanos for std::time::SystemTime { fn nanos(&self) -> u128 { self.duration_s
 
 fn nums(s: &str) -> Vec<u128> { s.split(',').filter(|x| !x.is_empty()).map(|x| x.parse().unwrap()).collect() }
 fn ord(o: std::cmp::Ordering) -> i32 { match o { std::cmp::Ordering::Less => -1, std::cmp::Ordering::Equal => 0, std::cmp::Ordering::Greater => 1 } }
+
+// modules that contain only the generated `debut()` (async runtimes: the rest of the expansion needs their crates)
+macro_rules! driver_min { () => {
+    use crate::Nanos;
+    pub fn run(line: &str) -> String {
+        let f: Vec<&str> = line.split(' ').collect();
+        match f[0] {
+            "call" => { crate::mock::set(crate::nums(f[2]), f[1].parse().unwrap()); let h = mk(); format!("{} {}", h.nanos(), crate::mock::pos()) }
+            // conc / concr <k> <dflt> <readings>   k threads call debut() at once (concr: the clock makes the first two readers meet)
+            "conc" | "concr" => {
+                let k: u64 = f[1].parse().unwrap();
+                crate::mock::set(crate::nums(f[3]), f[2].parse().unwrap());
+                crate::mock::rdv(f[0] == "concr");
+                let bar = std::sync::Arc::new(std::sync::Barrier::new(k as usize));
+                let hs: Vec<_> = (1..=k).map(|t| { let b = bar.clone(); std::thread::spawn(move || {
+                    crate::mock::TAG.with(|c| c.set(t)); b.wait(); let h = mk(); (t, h.nanos()) }) }).collect();
+                let st: Vec<String> = hs.into_iter().map(|h| { let (t, s) = h.join().unwrap(); format!("{}:{}", t, s) }).collect();
+                crate::mock::rdv(false);
+                st.join(",")
+            }
+            _ => "?".to_string(),
+        }
+    }
+} }
 
 macro_rules! driver { () => {
     use crate::Nanos;
@@ -147,7 +186,11 @@ def build(mods):
     parts = [PRELUDE]
     arms = []
     for name, text, mock, hty, ctor in mods:
-        parts.append("pub mod %s {\n pub struct A(pub i64);\n %s\n pub type H = %s;\n pub fn mk() -> H { %s }\n driver!();\n}\n" % (name, retarget(text, mock), hty, ctor))
+        if hty == "DEBUT-ONLY":
+            # text = the generated `fn debut() -> SystemTime { .. }` alone
+            parts.append("pub mod %s {\n pub struct S;\n impl S { %s }\n pub fn mk() -> crate::mock::SystemTime { S::debut() }\n driver_min!();\n}\n" % (name, retarget(text, True)))
+        else:
+            parts.append("pub mod %s {\n pub struct A(pub i64);\n %s\n pub type H = %s;\n pub fn mk() -> H { %s }\n driver!();\n}\n" % (name, retarget(text, mock), hty, ctor))
         arms.append('"%s" => %s::run(&line),' % (name, name))
     parts.append(MAIN % " ".join(arms))
     src = "\n".join(parts)
@@ -186,3 +229,25 @@ def run_many(binp, jobs, workers=8, timeout=120):
     """jobs: list of (mod, lines) -> list of (out, err)"""
     with ThreadPoolExecutor(workers) as ex:
         return list(ex.map(lambda j: run(binp, j[0], j[1], timeout), jobs))
+
+
+def debut_fn_text(expansion):
+    """text of the generated `fn debut` of the (first) script impl of an expansion, or None"""
+    import ir
+    ex = ir.parse_expansion(expansion)
+    toks = rs.parse(expansion)
+    flat = rs.render(toks)
+    i = flat.find("fn debut (")
+    if i < 0:
+        return None
+    j = flat.find("{", i)
+    depth, k = 0, j
+    while k < len(flat):
+        if flat[k] == "{":
+            depth += 1
+        elif flat[k] == "}":
+            depth -= 1
+            if depth == 0:
+                break
+        k += 1
+    return "pub " + flat[i:k + 1]
